@@ -250,9 +250,15 @@ func genC08(r *Rand, n int, thorough bool, emit func(string)) {
 		emit(fmt.Sprintf("fs.norm %s %d", hx(txt), r.Range(0, 6)))
 		if i%200 == 57 {
 			// hundreds of single-frame blocks (a fill component) whose max-min is a multiple of 64
+			// (the fill skips its first value: start one below the wanted minimum, and keep the last
+			// value off the skipped grid, so that max-min is the multiple of 64)
 			a := r.Range(-100, 1100)
 			span := 64 * r.Range(12, 40)
-			emit(fmt.Sprintf("fs.norm %s %d", hx(fmt.Sprintf("%d-%dy%d", a, a+span, r.Range(3, 5))), r.Range(0, 4)))
+			nn := r.Range(3, 5)
+			for (span+1)%nn == 0 {
+				nn++
+			}
+			emit(fmt.Sprintf("fs.norm %s %d", hx(fmt.Sprintf("%d-%dy%d", a-1, a+span, nn)), r.Range(0, 4)))
 		}
 		if i%50 == 31 {
 			// strides and gaps beyond 1024 inside a block, with further blocks behind it
